@@ -208,7 +208,9 @@ def wm_case(draw):
         })
     o = draw(updgen.update_opts(state, allow_subdir=False, allow_cli=True,
                                 allow_compress=False))
-    return {'state': state, 'opts': o, 'rounds': rounds}
+    return {'state': state, 'opts': o, 'rounds': rounds,
+            # one loader object kept across the rounds (library API)
+            'reuse': draw(st.booleans())}
 
 
 def strat_wm(tier):
@@ -265,6 +267,9 @@ def run_wm(desc):
         updgen.build_prior(state, root)
         boundary = False
         transition = False
+        kept = {}
+        if desc.get('reuse') and o['api'] == 'lib':
+            classes.append('loader-reused')
         for i, rnd in enumerate(desc['rounds']):
             mutate.apply_ops(root, rnd['edits'])
             if rnd['wdelta'] is None:
@@ -281,8 +286,21 @@ def run_wm(desc):
                 inv_before = {}
             before = fsnap.snapshot(root)
             trigger = c03.dedup_trigger_paths(root)
-            oc = updgen.run_update(
-                root, ro, create=(state['mode'] == 'none' and i == 0))
+            if desc.get('reuse') and o['api'] == 'lib':
+                def run_reused():
+                    if 'm' not in kept:
+                        kept['m'] = gem.ManifestRecursiveLoader(
+                            os.path.join(root, 'Manifest'),
+                            hashes=list(o['hashes']),
+                            allow_create=(state['mode'] == 'none'))
+                    kept['m'].update_entries_for_directory('')
+                    kept['m'].save_manifests(
+                        force=rnd['force'], compress_watermark=W,
+                        compress_format=F, sort=o['sort'])
+                oc = gem.call(run_reused)
+            else:
+                oc = updgen.run_update(
+                    root, ro, create=(state['mode'] == 'none' and i == 0))
             what = (f'round {i}: save with watermark {W}, format {F}, '
                     f'force {rnd["force"]} via {o["api"]}')
             if oc.kind != 'return' and i > 0 and not has_dangling(root):
